@@ -7,10 +7,17 @@ class GenProblem(Problem):
     """f_k(x) = sum_j a_kj (x_j - c_kj)^2 (+ rounding to `grid` to create exact ties),
     g_k(x) = b_k . x - t_k (inequality <= 0), h_k(x) = e_k . x - s_k (equality)."""
 
-    def __init__(self, n_var, n_obj=1, n_ieq=0, n_eq=0, xl=None, xu=None, seed=0, grid=None, shift=0.0, fscale=None):
+    def __init__(self, n_var, n_obj=1, n_ieq=0, n_eq=0, xl=None, xu=None, seed=0, grid=None, shift=0.0, fscale=None,
+                 special=None, declared=None):
+        # `declared`: the box the problem announces (a narrower one than the box the functions were built from: the same
+        # functions on a smaller search space, for warm starts from an earlier, wider run)
+        dxl, dxu = (xl, xu) if declared is None else declared
         super().__init__(n_var=n_var, n_obj=n_obj, n_ieq_constr=n_ieq, n_eq_constr=n_eq,
-                         xl=None if xl is None else np.array(xl, dtype=float),
-                         xu=None if xu is None else np.array(xu, dtype=float))
+                         xl=None if dxl is None else np.array(dxl, dtype=float),
+                         xu=None if dxu is None else np.array(dxu, dtype=float))
+        # `special`: 'posinf' / 'neginf' / 'nan' / 'mixinf' - one objective is not a finite number on part of the box
+        # (a barrier, an undefined region, a failed simulation)
+        self.special = special
         r = np.random.RandomState(seed)
         self.A = r.uniform(0.2, 2.0, size=(n_obj, n_var))
         lo = np.zeros(n_var) if xl is None else np.array(xl, dtype=float)
@@ -22,10 +29,12 @@ class GenProblem(Problem):
         self.E = r.uniform(-1, 1, size=(max(n_eq, 1), n_var))
         self.S = self.E @ mid
         self.grid = grid
+        self.lo0 = float(lo[0])
         self.scale = np.maximum(hi - lo, 1e-9)
         # objectives on very different scales (a cost of order 1e16 next to an O(1) term): scale applied after the rounding
         self.fscale = None if fscale is None else np.array(fscale, dtype=float)[:n_obj]
-        self.gp = dict(n_var=n_var, n_obj=n_obj, n_ieq=n_ieq, n_eq=n_eq, xl=xl, xu=xu, seed=seed, grid=grid, shift=shift, fscale=fscale)
+        self.gp = dict(n_var=n_var, n_obj=n_obj, n_ieq=n_ieq, n_eq=n_eq, xl=xl, xu=xu, seed=seed, grid=grid, shift=shift, fscale=fscale,
+                       special=special, declared=declared)
 
     def _evaluate(self, x, out, *args, **kwargs):
         z = (x[:, None, :] - self.C[None, :, :]) / self.scale
@@ -34,6 +43,20 @@ class GenProblem(Problem):
             F = np.round(F / self.grid) * self.grid
         if self.fscale is not None:
             F = F * self.fscale
+        if self.special:
+            F = np.array(F, dtype=float)
+            zone = ((x[:, 0] - self.lo0) / self.scale[0]) > 0.55
+            k = 0 if self.A[0, 0] < 1.1 else self.n_obj - 1
+            if self.special == "posinf":
+                F[zone, k] = np.inf
+            elif self.special == "neginf":
+                F[zone, k] = -np.inf
+            elif self.special == "nan":
+                F[zone, k] = np.nan
+            elif self.special == "mixinf":
+                up = ((x[:, 0] - self.lo0) / self.scale[0]) > 0.8
+                F[zone, k] = np.inf
+                F[up, k] = -np.inf
         out["F"] = F
         if self.n_ieq_constr > 0:
             G = (x @ self.B[:self.n_ieq_constr].T - self.T[:self.n_ieq_constr]) / self.scale.mean()
